@@ -3,6 +3,7 @@ import FinamModel.Translated.Output__interpolate
 import FinamModel.Translated.Output__clear_data
 import FinamModel.Translated.Output_get_data
 import FinamModel.Translated.push_data_gate
+import FinamModel.Translated.Output_push_data
 import FinamModel.Static
 import FinamModel.Props.C09
 import FinamModel.Props.C08
@@ -252,8 +253,37 @@ theorem tr_Output_get_data {α} (d : List (Int × α)) (ci : List (Nat × Option
 
 /-! ### C09 on the regenerated code
 
-An output whose pulls are answered by the *translated* `Output.get_data` (publications are appended, as
-`push_data` does once the payload is prepared), with `n` registered end points. -/
+An output whose pulls are answered by the *translated* `Output.get_data` and whose publications enter through the
+*translated* `Output.push_data` (the payload as `tools.prepare` returns it), with `n` registered end points. -/
+
+/-- **`Output.push_data`** (non-static path; `tools.prepare` and the aliasing test are not translated): with every
+    registered end point's metadata exchanged the prepared payload is appended with its time and the output's time is
+    set; with an exchange outstanding it is a no-data error; without targets nothing happens -/
+theorem tr_Output_push_data {α} (ci : List (Nat × Option Int)) (data : List (Int × α)) (tm : Option Int) (t : Int) (v : α)
+    (ex : Int) (hex : Py.len ci ≤ ex) :
+    Tr.Output_push_data true ex ci data false tm t v = .ok (some t, data ++ [(t, v)]) := by
+  have hex' : (ci.length : Int) ≤ ex := by simpa [Py.len] using hex
+  have h' : ¬ ex < (ci.length : Int) := by omega
+  unfold Tr.Output_push_data Tr.Output_push_data.join1 Tr.Output_push_data.join2 Tr.Output_push_data.join3
+  cases data with
+  | nil => simp [h', hex', Py.len, pure, Except.pure]
+  | cons e es =>
+    have hl : ¬ ((es.length : Int) + 1 ≤ 0) := by omega
+    have hi := idx_last e es
+    simp [h', hex', hl, hi, Py.len, bind, Except.bind, pure, Except.pure]
+
+theorem tr_Output_push_data_outstanding {α} (ci : List (Nat × Option Int)) (data : List (Int × α)) (tm : Option Int) (t : Int)
+    (v : α) (ex : Int) (hex : ex < Py.len ci) :
+    Tr.Output_push_data true ex ci data false tm t v = .error .noData := by
+  have hex' : ex < (ci.length : Int) := by simpa [Py.len] using hex
+  unfold Tr.Output_push_data
+  simp [hex', Py.len]
+
+theorem tr_Output_push_data_unconnected {α} (ci : List (Nat × Option Int)) (data : List (Int × α)) (tm : Option Int) (t : Int)
+    (v : α) (ex : Int) :
+    Tr.Output_push_data false ex ci data false tm t v = .ok (tm, data) := by
+  unfold Tr.Output_push_data
+  simp [pure, Except.pure]
 
 structure CodeOut (α : Type) where
   data : List (Int × α)
@@ -262,7 +292,10 @@ structure CodeOut (α : Type) where
 def codeInit (α : Type) (n : Nat) : CodeOut α := ⟨[], (List.range n).map fun k => (k, none)⟩
 
 def codeStep {α} (s : CodeOut α) : Ev α → CodeOut α × Option (Except Err α)
-  | .push t v => (⟨s.data ++ [(t, v)], s.ci⟩, none)
+  | .push t v =>
+    match Tr.Output_push_data true (Py.len s.ci) s.ci s.data false none t v with
+    | .ok (_, data') => (⟨data', s.ci⟩, none)
+    | .error _ => (s, none)
   | .pull k t =>
     match Tr.Output_get_data (some ()) (Py.len s.ci) s.ci s.data false t k with
     | .ok (v, ci', data') => (⟨data', ci'⟩, some (.ok v))
@@ -290,6 +323,8 @@ theorem code_step_sim {α} (n : Nat) (c : CodeOut α) (s : OState α) (hr : Code
     (codeStep c ev).2 = (stepImpl s ev).2 ∧ CodeRel n (codeStep c ev).1 (stepImpl s ev).1 := by
   cases ev with
   | push t v =>
+    have hp' := tr_Output_push_data c.ci c.data none t v (Py.len c.ci) (Int.le_refl _)
+    simp only [codeStep, hp']
     refine ⟨rfl, ?_, hr.vals, hr.keys⟩
     show toE (c.data ++ [(t, v)]) = s.ret ++ [⟨t, v⟩]
     rw [toE_append, hr.data]; rfl
